@@ -177,9 +177,112 @@ def retry_table(ctx, rule, f):
                 'continue-on, break-on and whether the task is a join')
 
 
+MEMOIZERS = ('lru_cache', 'cache', 'cached', 'cachedmethod', 'memoize',
+             'memoized', 'cached_property')
+
+
+def _memoizing_decorators(fnode):
+    out = []
+    for d in fnode.decorator_list:
+        x = d.func if isinstance(d, ast.Call) else d
+        nm = dotted(x) or ''
+        if nm.split('.')[-1] in MEMOIZERS:
+            out.append(nm)
+    return out
+
+
+def _fresh_policies_rule(ctx):
+    """A policy object evaluates its own fields against the context of the
+    task it is applied to (TaskPolicy.before_task_start/after_task_complete
+    -> evaluate_object_fields(self, ...)): an expression field is replaced
+    by its value *in the object*.  The object is therefore good for one
+    task start / completion only: everything between Task._before_task_start
+    / _after_task_complete and the policy constructors must build new
+    objects on every call."""
+    prog = ctx.prog
+    r = ctx.rule('R10', 'policy objects (whose fields are overwritten by '
+                 'evaluated values) are built afresh for every task start '
+                 'and completion', 'ownership (who may construct / keep)')
+    POL = 'mistral.engine.policies'
+    # classes whose instances evaluate their own fields in place
+    mut = set()
+    for c in prog.classes:
+        for k in prog.mro(c):
+            for q, f in prog.funcs.items():
+                if f.cls == k and any(
+                        isinstance(n, ast.Call) and
+                        U.call_name(n) == 'evaluate_object_fields' and
+                        n.args and norm(n.args[0]) == 'self'
+                        for n in own_nodes(f.node)):
+                    mut.add(c)
+    mut = {c for c in mut if c.startswith(POL + '.')}
+    if len(mut) < 7:
+        raise AnalysisError('C08.R10: only %d self-evaluating policy '
+                            'classes found' % len(mut))
+    short = {c.split('.')[-1]: c for c in mut}
+    # who constructs them
+    builders = set()
+    for q, f in sorted(prog.funcs.items()):
+        if not q.startswith('mistral.') or '.tests.' in q:
+            continue
+        for n in own_nodes(f.node):
+            if isinstance(n, ast.Call) and U.call_name(n) in short and \
+                    prog.resolve_dotted(f.module, dotted(n.func) or '') \
+                    == short[U.call_name(n)]:
+                builders.add(q)
+                r.check(q.startswith(POL + '.build_'),
+                        ctx.construct(f, n),
+                        'a policy object is constructed outside the policy '
+                        'factories', ctx.loc(f, n))
+    if len(builders) < 7:
+        raise AnalysisError('C08.R10: only %d policy factories found'
+                            % len(builders))
+    chain = sorted(builders) + [POL + '.build_policies',
+                                POL + '.construct_policies_list',
+                                POL + '.get_policy_factories']
+    for q in chain:
+        f = prog.func(q)
+        memo = _memoizing_decorators(f.node)
+        r.check(not memo, ctx.construct(f, extra='not memoized'),
+                'the function is memoized (%s): the policy objects it '
+                'returns are shared between tasks, and the values one task '
+                'evaluated into their fields replace the expressions for '
+                'every later task' % ', '.join(memo), ctx.loc(f))
+        # ... and keeps nothing at module level / on a default argument
+        for n in own_nodes(f.node):
+            if isinstance(n, ast.Global):
+                r.fail(ctx.construct(f, n),
+                       'a policy factory keeps state in a module global',
+                       ctx.loc(f, n))
+    # the two users take the list from build_policies on every call and do
+    # not keep it
+    n_use = 0
+    for q in ('mistral.engine.tasks.Task._before_task_start',
+              'mistral.engine.tasks.Task._after_task_complete'):
+        f = prog.func(q)
+        cs = [n for n in own_nodes(f.node) if isinstance(n, ast.Call) and
+              U.call_name(n) == 'build_policies']
+        r.check(len(cs) == 1, ctx.construct(f, extra='builds its policies'),
+                'the hook does not build its policy list', ctx.loc(f))
+        for n in own_nodes(f.node):
+            if isinstance(n, (ast.Assign, ast.AnnAssign)) and any(
+                    isinstance(x, ast.Call) and
+                    U.call_name(x) == 'build_policies'
+                    for x in ast.walk(n)):
+                tg = n.targets if isinstance(n, ast.Assign) else [n.target]
+                r.check(all(isinstance(t, ast.Name) for t in tg),
+                        ctx.construct(f, n),
+                        'the built policy list is stored beyond the call',
+                        ctx.loc(f, n))
+        n_use += len(cs)
+    if n_use < 2:
+        raise AnalysisError('C08.R10: build_policies call sites lost')
+
+
 def run(ctx):
     _run(ctx)
     _hooks_rule(ctx)
+    _fresh_policies_rule(ctx)
     _callbacks_rule(ctx)
     from mstatic.rules import shared
     r8 = ctx.rule('R8', 'continue-on / break-on see what the attempt has '
